@@ -442,7 +442,15 @@ namespace BitSerializer::Convert::Detail
 	{
 		using TDays = std::chrono::duration<typename TDuration::rep, std::ratio<86400>>;
 		const auto datePart = std::chrono::floor<TDays>(in);
-		const auto timePart = in - datePart;
+		// Time of day, computed without converting the start of the floor day back to ticks (it is not representable on the
+		// first partial day of the range) and in a representation that holds one day of ticks
+		using TWideRep = std::common_type_t<typename TDuration::rep, intmax_t>;
+		using TWide = std::chrono::duration<TWideRep, typename TDuration::period>;
+		constexpr TWide oneDay = std::chrono::duration_cast<TWide>(std::chrono::duration<TWideRep, std::ratio<86400>>(1));
+		auto timePart = TWide(in.time_since_epoch()) % oneDay;
+		if (timePart.count() < 0) {
+			timePart += oneDay;
+		}
 		auto timeInSec = std::chrono::floor<std::chrono::seconds>(timePart).count();
 		auto days = datePart.time_since_epoch().count();
 
@@ -488,6 +496,9 @@ namespace BitSerializer::Convert::Detail
 
 		// Based on Howard Hinnant's algorithm
 		static_assert(sizeof(int) >= 4, "This algorithm has not been ported to a 16 bit integers");
+		if (utc.Year < std::numeric_limits<int64_t>::min() + 400) {
+			throw std::out_of_range("Target duration is not enough");
+		}
 		auto const y = utc.Year - (utc.Month <= 2);
 		auto const m = static_cast<unsigned>(utc.Month);
 		auto const d = static_cast<unsigned>(utc.Day);
@@ -501,16 +512,33 @@ namespace BitSerializer::Convert::Detail
 		{
 			throw std::out_of_range("Target duration is not enough");
 		}
-		const int64_t days = era * 146097ll + (static_cast<int>(doe) - 719468);
+		const int64_t dayInEra = static_cast<int>(doe) - 719468;
+		if (dayInEra < 0 && era * 146097ll < std::numeric_limits<int64_t>::min() - dayInEra) {
+			throw std::out_of_range("Target duration is not enough");
+		}
+		const int64_t days = era * 146097ll + dayInEra;
 		const auto time = static_cast<long long>(utc.Hour) * 3600 + static_cast<long long>(utc.Min) * 60 + utc.Sec;
 
 		std::chrono::time_point<TClock, TDuration> tp;
-		SafeAddDuration(tp, std::chrono::seconds(time));
-		if (utc.SecFractions) {
-			// Only seconds fractions can be rounded to target timepoint type
-			SafeAddDuration(tp, std::chrono::round<TDuration>(utc.SecFractions.value()));
+		if (days >= 0)
+		{
+			SafeAddDuration(tp, std::chrono::seconds(time));
+			if (utc.SecFractions) {
+				// Only seconds fractions can be rounded to target timepoint type
+				SafeAddDuration(tp, std::chrono::round<TDuration>(utc.SecFractions.value()));
+			}
+			SafeAddDuration(tp, std::chrono::duration<int64_t, std::ratio<86400>>(days));
 		}
-		SafeAddDuration(tp, std::chrono::duration<int64_t, std::ratio<86400>>(days));
+		else
+		{
+			// Before the epoch: go to the start of the next day first and then back by the rest of the day, so that no
+			// intermediate value lies below the result (the first calendar day of the range is only partially representable)
+			SafeAddDuration(tp, std::chrono::duration<int64_t, std::ratio<86400>>(days + 1));
+			if (utc.SecFractions) {
+				SafeAddDuration(tp, std::chrono::round<TDuration>(utc.SecFractions.value()));
+			}
+			SafeAddDuration(tp, std::chrono::seconds(time - 86400));
+		}
 		out = tp;
 	}
 
